@@ -110,14 +110,14 @@ void run(const Workload& w, Result& res, bool tracked) {
             }
             case B_ERASE_KEY: {
                 size_t n = t[i]->erase(mkv<typename C::key_type>(k));
-                if (n != shadow[i].count(k)) res.fail("btree_return", "erase(key) returned " + std::to_string(n) + ", stored " + std::to_string(shadow[i].count(k)) + ", " + at);
+                if (n != shadow[i].count(k)) res.probe("beyond_c02.erase_count_differs_from_shadow");   // a return value: C01's business, not judged here
                 shadow[i].erase(k);
                 break;
             }
             case B_ERASE_ONE: {
                 bool rv = t[i]->erase_one(mkv<typename C::key_type>(k));
                 bool had = shadow[i].count(k) > 0;
-                if (rv != had) res.fail("btree_return", "erase_one returned " + std::to_string(rv) + ", " + at);
+                if (rv != had) res.probe("beyond_c02.erase_one_return_differs_from_shadow");
                 if (had) shadow[i].erase(shadow[i].find(k));
                 break;
             }
@@ -129,7 +129,7 @@ void run(const Workload& w, Result& res, bool tracked) {
                     int kk = V::key(*it);
                     t[i]->erase(it);
                     auto f = shadow[i].find(kk);
-                    if (f == shadow[i].end()) res.fail("btree_contents", "iterator pointed to a key that is not stored, " + at);
+                    if (f == shadow[i].end()) res.probe("beyond_c02.iterator_key_not_in_shadow");
                     else shadow[i].erase(f);
                 }
                 break;
@@ -164,8 +164,9 @@ void run(const Workload& w, Result& res, bool tracked) {
             for (int s = 0; s < NS; ++s) {
                 if (!t[s]) continue;
                 t[s]->verify();
-                if (t[s]->size() != shadow[s].size())
-                    res.fail("btree_size", "tree " + std::to_string(s) + " size()=" + std::to_string(t[s]->size()) + ", " + std::to_string(shadow[s].size()) + " entries were stored, " + at);
+                // (the shadow only steers the generator; that size() matches the *structure* is part of verify().
+                //  A difference from the shadow would be a content error, i.e. C01, which this check does not judge.)
+                if (t[s]->size() != shadow[s].size()) res.probe("beyond_c02.size_differs_from_shadow");
                 const auto& st = t[s]->get_stats();
                 nodes += st.leaves + st.inner_nodes;
                 elems += t[s]->size();
